@@ -21,14 +21,17 @@ import numpy as np
 from ..common import run_driver, q2s, seed_rng
 from ..exact import enc_list, enc_rule1, enc_scheme, rand_frac, rand_rule
 
-PROP_MODS = ['Stbem.Props.C14', 'Stbem.Props.QuadTie']
+PROP_MODS = ['Stbem.Props.C14', 'Stbem.Props.QuadTie', 'Stbem.Props.NormsTie']
 RULE = ('correspondence: the real Slobodeckij class (constructors of the three base rules monkey-patched in the '
         'harness process to rational stand-in rules with 1-4 nodes, routed by the requested order) run on exact '
         'rationals (class Q: exact sqrt of rational squares, float constants = the rationals they denote) and compared textually with the Lean '
         'model: seminorm_h_1_4 / sqrt(h), seminorm_h_1_2 (flat), seminorm_h_1_2 with straight parametrisations '
         '(axis-parallel, Pythagorean and non-unit directions), the point set semi_1_2_pw, seminorm_h_1_2_pw incl. '
         'its three assertions; integrands: rational-coefficient polynomials, reciprocals of affine functions, '
-        'trivariate polynomials in (x_hat, gamma_1, gamma_2). non-trivial = base rules with >= 2 nodes; distinct = '
+        'trivariate polynomials in (x_hat, gamma_1, gamma_2); every request is answered a second time by the definitions '
+        'REGENERATED from src/norms.py (translate/normsgen.py -> Gen/NormsGen.lean; driver `gslo`: the generated constructor on '
+        'the same order-keyed rule tables with every field of the object compared, seminorm_h_1_4 WITH its factor h**(1/2), '
+        'the flat / curve-aware / two-piece routines on the object the generated constructor builds). non-trivial = base rules with >= 2 nodes; distinct = '
         'distinct (routine, rules, integrand, interval, pieces). search (model-independent, real code): (a) exact: '
         'interpolatory rational rules with the exact moments of the three weights up to order N -> the real '
         'routines must return the exact rational closed form of the double integral for every polynomial of '
@@ -43,6 +46,12 @@ TRUSTED = [
     '(Driver/QuadCmd.lean)',
     'Python semantics: Fraction arithmetic is exact; NumPy object arrays apply Python operators element-wise; '
     'order of np.repeat/tile/kron/hstack',
+    'src/norms.py itself is regenerated from the source on every run (translate/normsgen.py -> Gen/NormsGen.lean: the constructor '
+    'with its derived arrays, the three seminorm methods statement by statement) and proved equal to the hand-written model for all '
+    'inputs (Props/NormsTie.lean: gen_init_eq, gen_seminorm_h_1_4_eq, gen_seminorm_h_1_2_flat_eq, gen_seminorm_h_1_2_curve_eq, '
+    'gen_seminorm_h_1_2_pw_eq); trusted there: the object model / NumPy prelude at the top of the generated file (parametrisation '
+    'object = identity + point evaluation, integrand f(x_hat, gamma) entry-wise, np.sum(axis=0), element-wise 2-D array '
+    'arithmetic), executed against the real class here',
     'the classes of src/quadrature.py that src/norms.py builds on (QuadScheme1D, ProductScheme2D, QuadScheme2D.integrate '
     'with its size assertion) are regenerated from the source on every run (translate/quadgen.py -> Gen/QuadGen.lean) and '
     'proved equal to the hand-written model used here (Props/QuadTie.lean: gen_product2_eq, gen_integrate2_eq, '
@@ -65,6 +74,43 @@ def translate(res):
     Gen/QuadGen.lean from the working tree (Props/QuadTie.lean proves it equal to the hand model the Slobodeckij model uses)."""
     from .C15 import translate_quadgen
     translate_quadgen(res)
+    translate_normsgen(res)
+
+
+def translate_normsgen(res):
+    """Regenerates lean/Stbem/Gen/NormsGen.lean (class Slobodeckij of src/norms.py, statement by statement) from the working
+    tree; a construct the translator does not understand raises (= broken obligation, the previous file is kept)."""
+    import os
+    import subprocess
+    import sys
+    from ..common import LEAN, REPO, VERIF, lake_lock, write_if_changed
+    sys.path.insert(0, os.path.join(VERIF, 'translate'))
+    import normsgen
+
+    def compiles(text):
+        # a changed file is compiled on its own (it imports Gen/QuadGen.lean only) before it replaces Gen/NormsGen.lean, which the
+        # driver links
+        tmp = os.path.join(LEAN, '.lake', 'normsgen_check_%d.lean' % os.getpid())
+        with open(tmp, 'w') as fh:
+            fh.write(text)
+        try:
+            with lake_lock():
+                p = subprocess.run(['lake', 'build', 'Stbem.Gen.QuadGen'], cwd=LEAN, stdout=subprocess.PIPE, stderr=subprocess.STDOUT,
+                                   text=True, timeout=600)
+                if p.returncode == 0:
+                    p = subprocess.run(['lake', 'env', 'lean', tmp], cwd=LEAN, stdout=subprocess.PIPE, stderr=subprocess.STDOUT,
+                                       text=True, timeout=600)
+        finally:
+            os.unlink(tmp)
+        return None if p.returncode == 0 else p.stdout[-2000:]
+    stats = normsgen.generate(REPO, os.path.join(LEAN, 'Stbem', 'Gen'), write_if_changed, compiles)
+    res.bump('generated_norms_file_changed', stats.get('changed', 0))
+    for k in ('classes', 'constructors', 'methods', 'fields', 'assignments', 'augmented_assignments', 'returns', 'asserts',
+              'specialised_branches', 'local_functions', 'method_calls', 'integrate_calls', 'integrand_calls', 'gamma_calls',
+              'numpy_calls', 'array_ops', 'sqrt_factors', 'external_rule_calls', 'identity_tests', 'default_arguments'):
+        res.bump('translated_norms_' + k, stats.get(k, 0))
+    res.count(('translated', 'norms.py'), True, n=stats.get('assignments', 0) + stats.get('returns', 0))
+    return stats
 
 
 # --------------------------------------------------------------------------------------------------
@@ -327,10 +373,22 @@ def correspond(res, tier):
     n_cases = 60 if tier == 'quick' else 1500
     lines, expect, meta = [], [], []
 
-    def add(line, value, key, nontrivial=True):
+    def add(line, value, key, nontrivial=True, twin=None):
+        """`twin` = (request, expected value) answered by the definitions regenerated from src/norms.py"""
         lines.append(line)
         expect.append(value)
         meta.append((key, nontrivial))
+        if twin is not None:
+            lines.append(twin[0])
+            expect.append(twin[1])
+            meta.append((('gen', ) + tuple(key), nontrivial))
+
+    def enc_table(tab):
+        return '|'.join('%d=%s' % (N, enc_rule1(*tab[N])) for N in sorted(tab))
+
+    def enc_slo(S):
+        return '|'.join([enc_scheme(S.gauss_sqrtinv), enc_list(S.semi_1_4_xy), enc_list(S.semi_1_4_weights), enc_scheme(S.gauss_leg),
+                         enc_scheme(S.gauss_x), enc_list(S.semi_1_2_xy), enc_list(S.semi_1_2_weights), enc_scheme(S.semi_1_2_pw)])
 
     for case in range(n_cases):
         n14 = rng.randint(1, 4)
@@ -355,6 +413,15 @@ def correspond(res, tier):
         with patched_rules(*tabs) as Slobodeckij:
             S = Slobodeckij(N14, N12) if two_orders else Slobodeckij(N14)
         res.bump('constructed_' + ('two_orders' if two_orders else 'one_order'))
+        # the generated constructor on the same order-keyed tables: every field of the object
+        add('gslo init %d %s %s %s %s' % (N14, N12 if two_orders else '-', enc_table(tabs[0]), enc_table(tabs[1]), enc_table(tabs[2])),
+            enc_slo(S), ('init', N14, N12 if two_orders else None, e14, ex, el), nt14 or nt12)
+        # the prelude of the generated file truncates where NumPy broadcasts a length-1 axis: the generated H^{1/2} routines are
+        # compared when both base rules have equally many nodes (the precondition of Props/NormsTie.lean)
+        same_len = len(gx[0]) == len(gl[0])
+        if not same_len:
+            res.bump('twin_skipped_h12_rules_of_different_length')
+        e3 = '%s %s %s' % (e14, ex, el)
 
         # the instance S serves a *history* of calls: intervals repeat within a case (any state the routines keep
         # between calls would show up as a difference from the stateless model)
@@ -369,7 +436,8 @@ def correspond(res, tier):
             except ZeroDivisionError:  # pole of the integrand at a node
                 res.bump('skipped_zero_division')
                 continue
-            add('slo h14 %s %s %s %s' % (e14, fs, q2s(a), q2s(h)), q2s(v / root), ('h14', e14, fs, a, h), nt14)
+            add('slo h14 %s %s %s %s' % (e14, fs, q2s(a), q2s(h)), q2s(v / root), ('h14', e14, fs, a, h), nt14,
+                twin=('gslo h14 %s %s %s %s %s' % (e3, fs, q2s(a), q2s(h), q2s(root)), q2s(v)))
         # --- H^{1/2}, flat
         pool = [(rand_q(rng, 0, 9), rng.choice(SQUARES + [F(2), F(3, 7), F(1000, 3)])) for _ in range(2)]
         for _ in range(4):
@@ -380,7 +448,8 @@ def correspond(res, tier):
             except ZeroDivisionError:
                 res.bump('skipped_zero_division')
                 continue
-            add('slo h12 %s %s %s %s %s' % (ex, el, fs, q2s(a), q2s(h)), q2s(v), ('h12', ex, el, fs, a, h), nt12)
+            add('slo h12 %s %s %s %s %s' % (ex, el, fs, q2s(a), q2s(h)), q2s(v), ('h12', ex, el, fs, a, h), nt12,
+                twin=('gslo h12 %s %s %s %s' % (e3, fs, q2s(a), q2s(h)), q2s(v)) if same_len else None)
         # --- H^{1/2}, curve-aware on a straight piece
         d = rng.choice(UNIT_DIRS + OTHER_DIRS)
         sg_pool = [SegGamma(rand_q(rng, 0, 9), rand_q(rng, 0, 9), d[0], d[1], rand_q(rng), wrap=Q)]
@@ -398,9 +467,11 @@ def correspond(res, tier):
                 res.bump('skipped_zero_division')
                 continue
             add('slo h12g %s %s %s %s %s %s' % (ex, el, fs, q2s(a), q2s(h), sg.enc()), q2s(v),
-                ('h12g', ex, el, fs, a, h, sg.raw), nt12)
+                ('h12g', ex, el, fs, a, h, sg.raw), nt12,
+                twin=('gslo h12g %s %s %s %s %s' % (e3, fs, q2s(a), q2s(h), sg.enc()), q2s(v)) if same_len else None)
         # --- the two-piece point set
-        add('slo pw %s %s' % (ex, el), enc_scheme(S.semi_1_2_pw), ('pw', ex, el), nt12)
+        add('slo pw %s %s' % (ex, el), enc_scheme(S.semi_1_2_pw), ('pw', ex, el), nt12,
+            twin=('gslo pw %s' % e3, enc_scheme(S.semi_1_2_pw)))
         # --- seminorm_h_1_2_pw on two straight pieces meeting in a corner
         for _ in range(3):
             fs = rand_fun3(rng)
@@ -437,7 +508,9 @@ def correspond(res, tier):
                 continue
             add('slo pwval %s %s %s %s %s %s %s %s %s %d' % (ex, el, fs, q2s(a1), q2s(b1), s1.enc(), q2s(a2), q2s(b2),
                                                              s2.enc(), same), v,
-                ('pwval', ex, el, fs, a1, b1, s1.raw, a2, b2, s2.raw, same), nt12)
+                ('pwval', ex, el, fs, a1, b1, s1.raw, a2, b2, s2.raw, same), nt12,
+                twin=('gslo pwval %s %s %s %s %s %s %s %s %d' % (e3, fs, q2s(a1), q2s(b1), s1.enc(), q2s(a2), q2s(b2), s2.enc(),
+                                                                   same), v) if same_len else None)
         if case < 3:
             res.sample(dict(rule_sqrtinv=e14, rule_x=ex, rule_leg=el, last_line=lines[-1][:300], value=expect[-1][:80]))
 
